@@ -19,7 +19,7 @@ Inductive obs :=
   | OGrat (a : adv) (sent : list (bool * N))
   | OGratN (a : adv) (n : N)
   | OName (n : N) (b : bool)
-  | OArp (intf mac op dst : N) (t : ip) (d : drop) (replied : bool)
+  | OArp (intf mac op dst tha : N) (t : ip) (d : drop) (replied : bool)   (* dst: ETHERNET destination; tha: ARP payload field *)
   | ONdp (intf : N) (is_ns has_ll : bool) (t : ip) (d : drop).
 
 Definition bn_eqb (a b : bool * N) : bool := Bool.eqb (fst a) (fst b) && N.eqb (snd a) (snd b).
@@ -36,8 +36,8 @@ Definition obs_ok (s : st) (o : obs) : bool :=
                     subset m sent && subset sent m && Nat.eqb (length m) (length sent)
   | OGratN a n => N.eqb (N.of_nat (length (gratuitous s a))) n
   | OName n b => Bool.eqb (announce_name s n) b
-  | OArp intf mac op dst t d replied =>
-      drop_eqb (arp_process s intf mac op dst t) d && Bool.eqb replied (drop_eqb d DNone)
+  | OArp intf mac op dst tha t d replied =>
+      drop_eqb (arp_process_frame s intf mac (mk_arp_frame dst op tha t)) d && Bool.eqb replied (drop_eqb d DNone)
   | ONdp intf ns ll t d => drop_eqb (ndp_process s intf ns ll t) d
   end.
 
